@@ -229,6 +229,7 @@ func (e *Engine) verifyFunc(fn *ssa.Function, con *Contract) *VC {
 			t := env.evalBool(r.Expr)
 			if env.err != nil {
 				vc.unsupported("requires %q: %v", r.Src, env.err)
+				vc.oblige(st, "ensures", key+"#requires-evaluable", "precondition cannot be evaluated ("+env.err.Error()+"): "+r.Src, e.fset.Position(fn.Pos()), "false")
 				env.err = nil
 				continue
 			}
@@ -253,6 +254,7 @@ func (e *Engine) verifyFunc(fn *ssa.Function, con *Contract) *VC {
 				t := post.evalBool(en.Expr)
 				if post.err != nil {
 					vc.unsupported("ensures %q: %v", en.Src, post.err)
+					vc.oblige(r.st, "ensures", fmt.Sprintf("%s#ensures%d@%s", key, i+1, site), "postcondition cannot be evaluated ("+post.err.Error()+"): "+en.Src, e.fset.Position(r.pos), "false")
 					post.err = nil
 					continue
 				}
@@ -309,7 +311,7 @@ func (vc *VC) frameObligations(fn *ssa.Function, con *Contract, args []Val, entr
 			if err != nil {
 				continue
 			}
-			v := env.eval(ex)
+			v := arrayAsSlice(env.eval(ex))
 			if v.K != KSlice {
 				continue
 			}
